@@ -151,7 +151,9 @@ class C14(Prop):
                   'the external debversion parser reads back) reading the printed text returns the value — C14_relation_rt, '
                   'C14_relations_rt, for ANY version parser/printer pair with that law; the law is proved for the concrete model of '
                   'debversion 0.4.4 on Policy-canonical versions (C14_debversion_canonical) giving the closed forms C14_relation_rt_dv, '
-                  'C14_relations_rt_dv over a decidable domain. The unpatched code is kept as RelLossy.old_... and refuted on four '
+                  'C14_relations_rt_dv over a decidable domain. Conversely every value the reader returns, on any string, has valid '
+                  'components and non-empty entries (C14_reader_range), so printing it and reading again returns it as soon as the version '
+                  'law holds for the versions it contains (C14_relation_reread, C14_relations_reread). The unpatched code is kept as RelLossy.old_... and refuted on four '
                   'witnesses (C14_old_..._refuted). PARTIAL: the conversion clauses (lossy <-> lossless, lossless reader reads the same '
                   'structure) are stated as C14_conv_full and decided on the implementation by the oracle of the rel-lossy-conv stream only.')
     level_note = ('Model: coq/model/RelLossy.v (reader over RelLex tokens, Display impls, str::split/trim, debversion 0.4.4 parse/print as a '
@@ -160,7 +162,8 @@ class C14(Prop):
             "+ random values (mostly inside the domain: random identifier strings, Policy-canonical versions incl. epochs up to u32::MAX) "
             "+ values with one component outside the domain (empty/with separators/non-ASCII names, non-canonical versions, empty entries) "
             "+ values whose version has a digit run >= 2^31; rel-lossy-text: repo test literals, corpus, every token sequence of length <= n "
-            "after a name over 17 tokens (n=4 quick, 5 thorough), every string <= m over the 21-symbol relation alphabet (m=3/4), printed "
+            "after a name over 17 tokens (n=4 quick, 5 thorough), every string <= m over the 21-symbol relation alphabet (m=3/4), every ASCII "
+            "character in 15 syntactic positions, every White_Space code point and its neighbours around entries and alternatives (str::trim), printed "
             "values with the layout perturbed (extra blanks, tabs, CR, LF, Unicode spaces, ','-separated profile terms) and mutated; "
             "rel-lossy-conv: the in-domain values; debversion: every string <= 4/6 over {1,0,a,:,-,.,~,+,SP,U+0663} + generated versions "
             "and their mutations. non-trivial = in-domain value with an optional part (value streams) / text that a reader accepts")
